@@ -6,6 +6,7 @@ import (
 	"fmt"
 	"math"
 	"math/rand"
+	"sync"
 
 	"github.com/yaricom/goNEAT/v4/experiment"
 	"github.com/yaricom/goNEAT/v4/neat/genetics"
@@ -84,6 +85,9 @@ func fuzzGenome(r *rand.Rand, g *genetics.Genome, id int) (*genetics.Genome, *Sn
 			if r.Intn(2) == 0 {
 				s.Nodes[i].Act = byte(scalarActivations[r.Intn(len(scalarActivations))])
 			}
+			if r.Intn(12) == 0 {
+				s.Nodes[i].Act = byte(c15CustomActivation)
+			}
 		}
 		if r.Intn(4) == 0 {
 			s.Nodes[i].TraitId = 0
@@ -114,7 +118,15 @@ func nontrivialArtefact(s *SnapGenome) bool {
 	return false
 }
 
+// an activation function the application registered itself (public API): a registered type like the built-in ones
+const c15CustomActivation = neatmath.NodeActivationType(40)
+
+var c15RegisterOnce sync.Once
+
 func runC15(c *Ctx, idx int) {
+	c15RegisterOnce.Do(func() {
+		neatmath.NodeActivators.Register(c15CustomActivation, func(x float64, _ []float64) float64 { return x / (1 + x*x) }, "Custom40Activation")
+	})
 	r := c.G
 	pool := genomePool(r)
 	per := 12
